@@ -22,7 +22,7 @@ ASSUMPTIONS = [
     "'leaves the old span' is judged on the shifted (unclipped) entry, as the library documents for reportingMode",
     "for tiers that exist only in A, appendTextgrid's tier span is not pinned by the statement and is not compared",
 ]
-REQUIRED_CLASSES = ["edit:clipped", "edit:dropped", "edit:becomes_empty", "edit:empty_tier", "edit:leaves_span",
+REQUIRED_CLASSES = ["edit_tg:tg_leaves_span", "edit:clipped", "edit:dropped", "edit:becomes_empty", "edit:empty_tier", "edit:leaves_span",
                     "append_tg:names_differ", "append_tier:empty_B", "append_tg:A_starts_after_zero"]
 
 
@@ -211,6 +211,55 @@ def run_append_tg(case):
     return {"classes": cl, "nontrivial": True}
 
 
+def run_edit_tg(case):
+    """Textgrid.editTimestamps: tier-wise result, span, and the reporting clause at textgrid level."""
+    p = P()
+    spec, off, mode = case["tg"], case["offset"], case["mode"]
+    tg = mk_tg(spec)
+    before = snap_tg(tg)
+    models_ = [model_edit(t, off) for t in spec["tiers"]]
+    leaves = any(m[3] for m in models_)
+    lo = min([Fraction(spec["minT"])] + [Fraction(m[1]) for m in models_])
+    hi = max([Fraction(spec["maxT"])] + [Fraction(m[2]) for m in models_])
+    grows = lo < Fraction(spec["minT"]) or hi > Fraction(spec["maxT"])
+    what = f"Textgrid.editTimestamps({off!r},{mode})"
+    try:
+        with quiet() as out:
+            res = tg.editTimestamps(off, mode)
+    except p.errors.PraatioException as e:
+        if mode == "error" and (leaves or grows):
+            if snap_tg(tg) != before:
+                raise Violation("receiver-mutated", what)
+            return {"classes": ["tg_raised"], "nontrivial": True}
+        raise Violation("failed-on-valid-input", f"{what}: {type(e).__name__}: {e}")
+    if mode == "error" and leaves:
+        raise Violation("out-of-bounds-not-raised", f"{what}: entries leave the old span but nothing was raised")
+    if snap_tg(tg) != before:
+        raise Violation("receiver-mutated", what)
+    txt = out.getvalue()
+    if mode == "silence" and txt:
+        raise Violation("silence-not-silent", f"{what} printed {txt!r}")
+    if mode == "warning" and leaves and not txt:
+        raise Violation("warning-mismatch", f"{what}: entries leave the old span but nothing was printed")
+    if list(res.tierNames) != [t["name"] for t in spec["tiers"]]:
+        raise Violation("tier-set", f"{what}: {res.tierNames}")
+    exact = spec.get("style") == "grid"
+    ops_ = [off, spec["maxT"], spec["maxT"] + abs(off)]
+    for t, m, rt in zip(spec["tiers"], models_, res.tiers):
+        models.compare_entries(snap_tier(rt)["entries"], m[0], exact, ops_, f"{what} tier {t['name']!r}")
+    cl = ["tg_edit"] + (["tg_leaves_span"] if leaves else [])
+    return {"classes": cl, "nontrivial": leaves or any(m[4] for m in models_)}
+
+
+@st.composite
+def edit_tg_cases(draw):
+    style = draw(gen.STYLES_ARITH)
+    spec = draw(gen.textgrid(style=style, max_tiers=3))
+    ts = sorted({t for tr in spec["tiers"] for e in tr["entries"] for t in e[:-1]})
+    cands = [0.0, 0.5, 1.0, 2.0] + [-t for t in ts]
+    return {"tg": spec, "offset": draw(st.sampled_from(cands)), "mode": draw(st.sampled_from(["silence", "silence", "warning", "error"]))}
+
+
 # ---------------------------------------------------------------- generators
 
 
@@ -258,6 +307,7 @@ def append_tg_cases(draw):
 
 CHECKS = [
     Check("edit", run_edit, strategy=lambda tier: edit_cases(), quick_n=2500, thorough_n=40000),
+    Check("edit_tg", run_edit_tg, strategy=lambda tier: edit_tg_cases(), quick_n=700, thorough_n=10000),
     Check("append_tier", run_append_tier, strategy=lambda tier: append_tier_cases(), quick_n=1000, thorough_n=15000),
     Check("append_tg", run_append_tg, strategy=lambda tier: append_tg_cases(), quick_n=700, thorough_n=10000),
 ]
